@@ -2,6 +2,7 @@ import Tup.Lemmas.PhChoreo
 import Tup.Lemmas.PhCursor
 import Tup.Lemmas.PhModel
 import Tup.Lemmas.PhEmitted
+import Tup.Lemmas.PhScrollChoreo
 /-!
   C07 — printed Unicode placeholders decode to exactly the requested image cells.
 
@@ -12,8 +13,11 @@ import Tup.Lemmas.PhEmitted
   Layer (A) — per line, on the real terminal cells — is proved here for every ID, placement ID,
   mode (all 160), start column < 297, any width, row < 297, any caller background formatting,
   any terminal state with room for the line.  Layer (B) `parse (serialize ts) = ts` is proved for
-  the emitted token class.  Layer (C), the multi-line choreography, is proved for the
-  absolute-position style; the cursor-relative styles are left (note at the end).
+  the emitted token class.  Layer (C), the multi-line choreography, is proved for every style: the
+  absolute-position style (`choreography_abs`), the cursor-relative styles with save/restore or relative
+  movement including scrolling (`choreography_at_cursor`; `choreography_at_cursor_noscroll` is the earlier
+  special case that also covers non-default scroll margins), and the two line-feed styles through the
+  tty's ONLCR (`choreography_linefeeds_at_cursor`, `choreography_linefeeds`) (note at the end).
 -/
 namespace Tup.C07
 open Tup Tup.Spec Tup.Ph
@@ -306,24 +310,185 @@ theorem choreography_single_row (save lf : Bool) (p : Placeholder) (m : Mode) (f
   have : p.endRow - p.startRow = 1 := by omega
   simp [Placeholder.lineToksAll, this, streamToks, enumFrom, curBefore, curAfter]
 
+/-- **(C) `choreography_at_cursor`, cursor-relative styles, scrolling included** (`to_stream_at_cursor` with save/restore — the
+    default of `to_stream`/`display_only` — or with the relative `CSI n D`; no line feeds).  Terminal of ANY size `H × W`
+    with the default scroll margins (`top = 0`, `bot = H - 1`), ANY prior screen content and SGR state, cursor at
+    `(x0, y0)` on the screen with `x0 + C ≤ W`; ANY number of rows `R` (also `R > H`).  With
+    `s = max 0 (y0 + R - H)` (natural-number subtraction below) lines scrolled, after the complete output
+    * image row `i` sits on screen row `y0 + i - s`, columns `x0 … x0 + C - 1`, and decodes to
+      `(id, pid, start_row + i, start_col + j)` for image rows < 297 (spaces for image rows ≥ 297) — the positions of
+      DESIGN.md A.5; the side condition `s ≤ y0 + i` holds for every `i` when `R ≤ H` and otherwise excludes exactly the
+      rows that have scrolled off the top;
+    * every other cell of the screen holds the OLD content moved up by `s` lines (`t.cells (y + s) x`), and is a default
+      blank where a line scrolled in (`y + s ≥ H`);
+    * the cursor is at `(x0 + C, min (y0 + R - 1) (H - 1))` (`x = W`: pending wrap), the colours are default, and the
+      specification's scroll counter `scrolled` advanced by exactly `s`.
+    Save/restore: for both values of every terminal parameter.  Relative style: `cfg.cubFromW` (tmux/kitty `CUB`
+    semantics) is needed only when the lines touch the right margin (`x0 + C = W`), as in the no-scroll theorem. -/
+theorem choreography_at_cursor (save : Bool) (t : Term) (p : Placeholder) (m : Mode) (fmt : FmtT)
+    (hp : p.valid = true) (hm : m.valid = true) (hsc : p.startCol < 297) (hfmt : BgOnly fmt)
+    (hw : t.cx + (p.endCol - p.startCol) ≤ t.w)
+    (htop : t.top = 0) (hbot : t.bot = t.h - 1) (hcy : t.cy < t.h)
+    (hcub : save = false → (t.cfg.cubFromW = true ∨ t.cx + (p.endCol - p.startCol) < t.w)) :
+    let t' := t.feedAll (streamToks (.atCursor save false) (p.endCol - p.startCol) (p.lineToksAll m fmt))
+    let s := t.cy + (p.endRow - p.startRow) - t.h
+    (∀ i < p.endRow - p.startRow, s ≤ t.cy + i → p.startRow + i < 297 →
+      decodeRow none ((List.range (p.endCol - p.startCol)).map fun j => t'.cells (t.cy + i - s) (t.cx + j)) =
+        (List.range (p.endCol - p.startCol)).map fun j => some ⟨p.imageId, p.placementId, p.startRow + i, p.startCol + j⟩) ∧
+    (∀ i < p.endRow - p.startRow, s ≤ t.cy + i → 297 ≤ p.startRow + i → ∀ j < p.endCol - p.startCol,
+      (t'.cells (t.cy + i - s) (t.cx + j)).ch = 32) ∧
+    (∀ y x, y < t.h →
+      ¬ (t.cy ≤ y + s ∧ y + s < t.cy + (p.endRow - p.startRow) ∧ t.cx ≤ x ∧ x < t.cx + (p.endCol - p.startCol)) →
+      t'.cells y x = if y + s < t.h then t.cells (y + s) x else Cell.blank) ∧
+    t'.cx = t.cx + (p.endCol - p.startCol) ∧ t'.cy = min (t.cy + (p.endRow - p.startRow) - 1) (t.h - 1) ∧ t'.sgr = {} ∧
+    t'.scrolled = t.scrolled + (s : Int) := by
+  intro t' s
+  have h := Ph.choreo_atCursor_gen save false t p m fmt hp hm hsc hfmt ⟨htop, hbot, hcy⟩ hw (fun _ => hcub)
+  simp only [Bool.false_eq_true, if_false, id_eq, lcol_false] at h
+  exact h
+
+/-- **(C) `choreography_linefeeds_at_cursor`**: `to_stream_at_cursor(use_line_feeds=True)` (with or without save/restore —
+    neither is emitted) written to a tty, whose ONLCR turns every LF into CR LF (`Spec.onlcr`).  Same terminal hypotheses
+    as `choreography_at_cursor` and the same `s = max 0 (y0 + R - H)` (the last line is NOT followed by a line feed).
+    Image row `i` sits on screen row `y0 + i - s` at columns `c i … c i + C - 1` with `c 0 = x0` and `c i = 0` for `i > 0`
+    (`x0 + C ≤ W` makes every line fit); every cell that is not a cell of some line holds the old content moved up by
+    `s` (blank where a line scrolled in); final cursor `(c (R - 1) + C, min (y0 + R - 1) (H - 1))`, colours default.
+    No terminal parameter is involved. -/
+theorem choreography_linefeeds_at_cursor (save : Bool) (t : Term) (p : Placeholder) (m : Mode) (fmt : FmtT)
+    (hp : p.valid = true) (hm : m.valid = true) (hsc : p.startCol < 297) (hfmt : BgOnly fmt)
+    (hw : t.cx + (p.endCol - p.startCol) ≤ t.w)
+    (htop : t.top = 0) (hbot : t.bot = t.h - 1) (hcy : t.cy < t.h) :
+    let t' := t.feedAll (onlcr (streamToks (.atCursor save true) (p.endCol - p.startCol) (p.lineToksAll m fmt)))
+    let s := t.cy + (p.endRow - p.startRow) - t.h
+    let c := fun i => if i = 0 then t.cx else 0
+    (∀ i < p.endRow - p.startRow, s ≤ t.cy + i → p.startRow + i < 297 →
+      decodeRow none ((List.range (p.endCol - p.startCol)).map fun j => t'.cells (t.cy + i - s) (c i + j)) =
+        (List.range (p.endCol - p.startCol)).map fun j => some ⟨p.imageId, p.placementId, p.startRow + i, p.startCol + j⟩) ∧
+    (∀ i < p.endRow - p.startRow, s ≤ t.cy + i → 297 ≤ p.startRow + i → ∀ j < p.endCol - p.startCol,
+      (t'.cells (t.cy + i - s) (c i + j)).ch = 32) ∧
+    (∀ y x, y < t.h →
+      (¬ ∃ i < p.endRow - p.startRow, y + s = t.cy + i ∧ c i ≤ x ∧ x < c i + (p.endCol - p.startCol)) →
+      t'.cells y x = if y + s < t.h then t.cells (y + s) x else Cell.blank) ∧
+    t'.cx = c (p.endRow - p.startRow - 1) + (p.endCol - p.startCol) ∧
+    t'.cy = min (t.cy + (p.endRow - p.startRow) - 1) (t.h - 1) ∧ t'.sgr = {} ∧
+    t'.scrolled = t.scrolled + (s : Int) := by
+  intro t' s c
+  have h := Ph.choreo_atCursor_gen save true t p m fmt hp hm hsc hfmt ⟨htop, hbot, hcy⟩ hw (fun h => by cases h)
+  simp only [if_true, lcol_true] at h
+  refine ⟨h.1, h.2.1, ?_, h.2.2.2⟩
+  intro y x hy hn
+  apply h.2.2.1 y x hy
+  rintro ⟨a1, a2, a3, a4⟩
+  apply hn
+  refine ⟨y + s - t.cy, by omega, by omega, a3, a4⟩
+
+/-- **(C) `choreography_linefeeds`**: `to_stream_with_linefeeds` written to a tty (ONLCR: LF → CR LF).  EVERY line, the last
+    one included, is followed by a line feed, so `s = max 0 (y0 + R + 1 - H)` lines scroll — one more than in the
+    at-cursor styles once the bottom line is reached.  Image row `i` sits on screen row `y0 + i - s` at columns
+    `c i … c i + C - 1` (`c 0 = x0`, `c i = 0` for `i > 0`); every cell that is not a cell of some line holds the old
+    content moved up by `s` (blank where a line scrolled in — in particular the whole last line once anything scrolled);
+    the cursor ends at column 0 of row `min (y0 + R) (H - 1)`, colours default. -/
+theorem choreography_linefeeds (t : Term) (p : Placeholder) (m : Mode) (fmt : FmtT)
+    (hp : p.valid = true) (hm : m.valid = true) (hsc : p.startCol < 297) (hfmt : BgOnly fmt)
+    (hw : t.cx + (p.endCol - p.startCol) ≤ t.w)
+    (htop : t.top = 0) (hbot : t.bot = t.h - 1) (hcy : t.cy < t.h) :
+    let t' := t.feedAll (onlcr (linefeedToks (p.lineToksAll m fmt)))
+    let s := t.cy + (p.endRow - p.startRow) + 1 - t.h
+    let c := fun i => if i = 0 then t.cx else 0
+    (∀ i < p.endRow - p.startRow, s ≤ t.cy + i → p.startRow + i < 297 →
+      decodeRow none ((List.range (p.endCol - p.startCol)).map fun j => t'.cells (t.cy + i - s) (c i + j)) =
+        (List.range (p.endCol - p.startCol)).map fun j => some ⟨p.imageId, p.placementId, p.startRow + i, p.startCol + j⟩) ∧
+    (∀ i < p.endRow - p.startRow, s ≤ t.cy + i → 297 ≤ p.startRow + i → ∀ j < p.endCol - p.startCol,
+      (t'.cells (t.cy + i - s) (c i + j)).ch = 32) ∧
+    (∀ y x, y < t.h →
+      (¬ ∃ i < p.endRow - p.startRow, y + s = t.cy + i ∧ c i ≤ x ∧ x < c i + (p.endCol - p.startCol)) →
+      t'.cells y x = if y + s < t.h then t.cells (y + s) x else Cell.blank) ∧
+    t'.cx = 0 ∧ t'.cy = min (t.cy + (p.endRow - p.startRow)) (t.h - 1) ∧ t'.sgr = {} ∧
+    t'.scrolled = t.scrolled + (s : Int) := by
+  intro t' s c
+  have h := Ph.choreo_linefeeds_gen t p m fmt hp hm hsc hfmt ⟨htop, hbot, hcy⟩ hw
+  simp only [lcol_true] at h
+  refine ⟨h.1, h.2.1, ?_, h.2.2.2⟩
+  intro y x hy hn
+  apply h.2.2.1 y x hy
+  rintro ⟨a1, a2, a3, a4⟩
+  apply hn
+  refine ⟨y + s - t.cy, by omega, by omega, a3, a4⟩
+
 /-- the hypotheses of `line_decodes` are satisfiable: ID 0x01020304 (needs the 3rd diacritic and 24-bit colour),
     placement 5, columns 1..3 of row 0, default mode, on a 10-column terminal -/
 example : (⟨0x01020304, 5, 1, 0, 4, 2⟩ : Placeholder).valid = true ∧ (displayMode false).valid = true ∧
     BgOnly (getFormattingT (.idx 3)) ∧ (Term.init 10 4).cx + (4 - 1) ≤ (Term.init 10 4).w :=
   ⟨by decide, by decide, getFormattingT_bgOnly _, by decide⟩
 
+/-- the hypotheses of `choreography_at_cursor` / `choreography_linefeeds*` are satisfiable — the hand-checked case of DESIGN.md §5
+    C07: a placeholder of 4 rows × 3 columns started at column 17, row 3 of a 20 × 6 screen (touching the right margin, one
+    line scrolls) -/
+example :
+    let t : Term := { Term.init 20 6 with cx := 17, cy := 3 }
+    let p : Placeholder := ⟨0x01020304, 5, 0, 0, 3, 4⟩
+    p.valid = true ∧ (displayMode false).valid = true ∧ p.startCol < 297 ∧ BgOnly (getFormattingT .none) ∧
+    t.cx + (p.endCol - p.startCol) ≤ t.w ∧ t.top = 0 ∧ t.bot = t.h - 1 ∧ t.cy < t.h ∧ t.cfg.cubFromW = true ∧
+    t.cy + (p.endRow - p.startRow) - t.h = 1 :=
+  ⟨by decide, by decide, by decide, getFormattingT_bgOnly _, by decide, rfl, rfl, by decide, rfl, by decide⟩
+
+/-- … and on that case the specification terminal, evaluated directly (kernel computation, independent of the theorems), shows
+    what `choreography_at_cursor` says, in the save/restore and in the relative style: rows 2–5, columns 17–19 decode to the
+    image cells, one line scrolled (the `A` of old row 1 is now on row 0, nothing else appears), final cursor `(20, 5)`. -/
+example :
+    let t : Term := { Term.init 20 6 with cx := 17, cy := 3, cells := fun y x => if y = 1 ∧ x = 0 then { ch := 65 } else Cell.blank }
+    let p : Placeholder := ⟨0x01020304, 5, 0, 0, 3, 4⟩
+    ∀ save : Bool,
+    let t' := t.feedAll (streamToks (.atCursor save false) 3 (p.lineToksAll (displayMode false) .none))
+    t'.cx = 20 ∧ t'.cy = 5 ∧ t'.scrolled = 1 ∧ (t'.cells 0 0).ch = 65 ∧
+    (∀ i < 4, decodeRow none ((List.range 3).map fun j => t'.cells (2 + i) (17 + j)) =
+      (List.range 3).map fun j => some ⟨0x01020304, 5, i, j⟩) ∧
+    (∀ y < 6, ∀ x < 17, y ≠ 0 ∨ x ≠ 0 → t'.cells y x = Cell.blank) := by
+  decide +kernel
+
+/-- `to_stream_at_cursor(use_line_feeds=True)` through ONLCR on the same case: row 0 at column 17, rows 1–3 at column 0, screen
+    rows 2–5, one line scrolled, final cursor `(3, 5)` -/
+example :
+    let t : Term := { Term.init 20 6 with cx := 17, cy := 3, cells := fun y x => if y = 1 ∧ x = 0 then { ch := 65 } else Cell.blank }
+    let p : Placeholder := ⟨0x01020304, 5, 0, 0, 3, 4⟩
+    let t' := t.feedAll (onlcr (streamToks (.atCursor true true) 3 (p.lineToksAll (displayMode false) .none)))
+    t'.cx = 3 ∧ t'.cy = 5 ∧ t'.scrolled = 1 ∧ (t'.cells 0 0).ch = 65 ∧
+    (∀ i < 4, decodeRow none ((List.range 3).map fun j => t'.cells (2 + i) ((if i = 0 then 17 else 0) + j)) =
+      (List.range 3).map fun j => some ⟨0x01020304, 5, i, j⟩) := by
+  decide +kernel
+
+/-- `to_stream_with_linefeeds` through ONLCR on the same case: the trailing line feed scrolls a second line — screen rows 1–4,
+    bottom row blank, final cursor `(0, 5)` -/
+example :
+    let t : Term := { Term.init 20 6 with cx := 17, cy := 3, cells := fun y x => if y = 2 ∧ x = 0 then { ch := 65 } else Cell.blank }
+    let p : Placeholder := ⟨0x01020304, 5, 0, 0, 3, 4⟩
+    let t' := t.feedAll (onlcr (linefeedToks (p.lineToksAll (displayMode false) .none)))
+    t'.cx = 0 ∧ t'.cy = 5 ∧ t'.scrolled = 2 ∧ (t'.cells 0 0).ch = 65 ∧
+    (∀ i < 4, decodeRow none ((List.range 3).map fun j => t'.cells (1 + i) ((if i = 0 then 17 else 0) + j)) =
+      (List.range 3).map fun j => some ⟨0x01020304, 5, i, j⟩) ∧
+    (∀ x < 20, t'.cells 5 x = Cell.blank) := by
+  decide +kernel
+
 /-
-  Not proved here (full statement kept; see DESIGN.md C07 and Appendix A.5):
+  Status of the full statement of DESIGN.md C07 / Appendix A.5:
 
   (C) choreography : for every style, W, H, (x0, y0), rectangle fitting the width (abs: also the height):
         let t' := feedAll (blank W H at (x0,y0)) (streamToks style …);
         ∀ i < R, ∀ j < C, decode t' (expectedPos style i j) = some ⟨id, pid, startRow+i, startCol+j⟩ ∧ every other cell is blank
       with the hypothesis `cfg.cubFromW` for the relative style touching the right margin.
-      Proved above: the absolute-position style (`choreography_abs`, any start state, both values of every terminal
-      parameter), the cursor-relative styles with save/restore or relative movement when nothing scrolls
-      (`choreography_at_cursor_noscroll`; `cubFromW` only where the relative style touches the right margin) and the
-      single-row case of every cursor-relative style (`choreography_single_row`).  The per-line statements `line_decodes` + `line_frame` are the induction step for the other styles.
-      TODO: scrolling (`y0 + R > H`: every written row moves up with the content), and the line-feed styles, which need the tty's ONLCR (`Spec.onlcr`).
+      Proved above, each from ANY prior screen content and SGR state (so "every other cell is blank" is the special case
+      of a blank start screen of the frame conditions):
+      * absolute-position style: `choreography_abs` (both values of every terminal parameter);
+      * cursor-relative styles with save/restore or relative movement: `choreography_at_cursor` — scrolling included
+        (`s = max 0 (y0 + R - H)`), default scroll margins; `choreography_at_cursor_noscroll` additionally covers
+        non-default margins when nothing scrolls; `cubFromW` only where the relative style touches the right margin;
+      * line-feed styles through the tty's ONLCR (`Spec.onlcr`): `choreography_linefeeds_at_cursor`
+        (`to_stream_at_cursor(use_line_feeds=True)`, `s = max 0 (y0 + R - H)`) and `choreography_linefeeds`
+        (`to_stream_with_linefeeds`, `s = max 0 (y0 + R + 1 - H)` because of the trailing line feed);
+      * single-row case of every cursor-relative style: `choreography_single_row`.
+      Nothing of (C) is left as TODO.  Outside the statement (not claimed): scrolling with NON-default scroll margins
+      (DECSTBM active while the placeholder is printed), and the line-feed styles on a stream without ONLCR (in `Spec.Term` a
+      raw LF keeps the column, so the lines would form a staircase).
 -/
 
 end Tup.C07
